@@ -423,7 +423,10 @@ func init() {
 	engine.Register(&engine.Property{
 		ID: "C04", Level: "model_checking",
 		Rule:        "E1 with a reference automaton (count, last attempt, locked-until) advanced on the same history and compared with storage and with a probe login after every step; clock alphabet {1s, W-1s, W+1s, D-1s, D+1s}; accounts with OTPs, with TOTP, and with TOTP replay protection; small-duration configurations run to a fixpoint (all histories of any length); classes = attempt classes and lock transitions hit",
-		Units:       func(tier string) []engine.Unit { return e1Units(c04Scenarios(tier)) },
+		Units: func(tier string) []engine.Unit {
+			scs := c04Scenarios(tier)
+			return e1Units(append(scs, configVariants(scs[:2], tier, "err500", "json")...))
+		},
 		Assumptions: []string{"lock expiry at exactly LockDuration is not asserted either way", "at most LockAfter+2 counted failures in a row (bounds the counter)", "TOTP replay protection (UserOneTime) is exercised in dedicated configurations: the code accepted last, sent again, is a counted failure"},
 	})
 }
